@@ -94,6 +94,8 @@ def normalise(v):
     if isinstance(v, (list, tuple)):
         return [normalise(x) for x in v]
     if hasattr(v, "tolist") and callable(v.tolist):      # ndarray or numpy scalar
+        if getattr(getattr(v, "dtype", None), "kind", "O") in "biuf":
+            return v.tolist()                            # numeric: already plain Python scalars
         return normalise(v.tolist())
     if v is None or isinstance(v, (bool, int, float, str)):
         return v
